@@ -18,9 +18,19 @@ def _work(i):
     return i, _RUNCASE(_PROP, name, hint, confkw, _TIER, src)
 
 
+# thorough tier: C02's obligations (MR, S_r, reachability per index) are the most solver-heavy of the family
+THOROUGH_STRIDE = {'C02': 4, 'C01': 2}
+
+
 def hint_cases(prop, tier, seed):
     from . import grammar
     hs = grammar.hint_set(tier, seed)
+    if tier != 'quick' and prop in THOROUGH_STRIDE:
+        # sized by wall time: everything of the quick set, every k-th hint of the rest of the thorough grammar
+        quick_names = {n for n, _h in grammar.hint_set('quick', seed)}
+        k = THOROUGH_STRIDE[prop]
+        rest = [x for x in hs if x[0] not in quick_names]
+        hs = [x for x in hs if x[0] in quick_names] + rest[(seed % k)::k]
     confs = grammar.conf_set(tier)
     cases = []
     import re
